@@ -53,6 +53,32 @@ CHECKS = {
    technique="Coq proof (case analysis on the step function, induction over traces) + exhaustive state x action differential run", ref="§3 C17"),
 }
 
+BLK_NOTE = 'Trusted: Coq kernel, vm_compute, Go harness, python glue. Assumed: ext4 extent/FIEMAP/hole semantics at 4 KiB granularity (an extent exists iff written and not punched); queued holes are applied or dropped before the next chain-changing operation; each replica.Server call is atomic (rmLock critical section not modelled as concurrent). Unmap, backing files and non-4KiB sizes are outside.'
+
+CHECKS.update({
+ "C01": dict(
+   text="Coq refinement theorem block_refines_spec over the Block model (literal transcription of diff_disk.go lookup/fullWriteAt/readModifyWrite/WriteAt split, backup.go preload, UpdateLUNMap, createDisk/openLiveChain index conventions, RemoveIndex, revert, Resize, FoldFile): for every granularity K>0, volume size, history of write/read/snapshot/delete/revert/reopen/reload/set-punch/resize and every hole-application choice, results, read data and the full-volume image equal the flat spec (last write or zero per unit); the unaligned three-way split writes exactly [off, off+len). Controller half (out-of-range I/O refused, state unchanged) is theorem write_out_of_range / read_out_of_range of the Ctl model. Correspondence: generated histories on a real replica.Server (sector and odd-byte streams, chain files, reopen with/without preload, punching on/off) vs the model, oracle on the observed reads.",
+   note=BLK_NOTE, technique="Coq proof (simulation relation, induction over histories, loop invariants for the literal fullWriteAt/preload loops) + differential run on a real replica directory", ref="§3 C01"),
+ "C06": dict(
+   text="Coq theorems over the Block model: c06_oracle (NewReadOnly image and revert-on-copy image of every retained user-created snapshot equal the image captured when it was taken, after every step) holds on every model trace; user_snapshot_immutable, revert_exact, punch safety (every emitted hole lies strictly between the newest user snapshot and the head and only covers blocks shadowed above). C06_refuted documents the pre-fix fullWriteAt (hole sent to the wrong file). Correspondence on real directories with punching on, images read through NewReadOnly on byte-exact sparse copies.",
+   note=BLK_NOTE, technique="Coq proof (invariant over histories incl. hole soundness) + differential run with snapshot images extracted from directory copies", ref="§3 C06"),
+ "C11": dict(
+   text="Coq theorems over the Block model: delete (prepare -> fold child into parent -> remove) preserves the live image and every other retained user snapshot (shift lemma); head / latest / base are refused by PrepareRemoveDisk and RemoveDiffDisk with the state unchanged; every element of the cleaner's candidate list lies strictly between base and checkpoint, is not a retained user snapshot, nor is its parent, and the list is empty without a usable checkpoint; c11_oracle holds on every in-domain model trace. Correspondence: real sync.GetDeleteCandidateChain vs the model on random chain shapes; every deletion through PrepareRemoveDisk + sparse.FoldFile + RemoveDiffDisk with images before/after.",
+   note=BLK_NOTE + " The user-deletion gate of the controller REST handler (rf RW, checkpoint set, not the checkpoint) is not modelled; candidate ordering by size is compared only as a set.",
+   technique="Coq proof (shift lemma, filter characterisation) + differential run incl. the real candidate filter", ref="§3 C11"),
+ "C16": dict(
+   text="Coq theorems over the Block model: growing appends zeros to the live image and every snapshot image, the added range accepts writes, the size survives reopen; a smaller size is refused with the state unchanged; c16_oracle holds on every in-domain model trace. Controller half (smaller or equal size refused before any replica is called) is theorem resize_not_growing_refused of the Ctl model. Correspondence: Server.Resize interleaved with I/O, snapshots and reopen on a real directory.",
+   note=BLK_NOTE, technique="Coq proof (corollaries of the refinement with Resize in the op type) + differential run", ref="§3 C16"),
+ "C07": dict(
+   text="PARTIAL proof + system exploration. Proved (Ctl model): promotion WO->RW by VerifyRebuildReplica happens only after the chains were compared from the checkpoint upward and copies the source's revision counter; at most one WO replica in every reachable state; whoever serves a read is RW (so a rebuilding or interrupted replica is never read). Not proved: that ssync's copy plus Reload/UpdateLUNMap under concurrent writes yields identical images; that half is exercised on the real jiva binaries: a replica is killed and rebuilt under a running writer (thorough: interrupted rebuilds, rf 2/3/5) and every RW replica's live image, each snapshot image, revision counter and checkpoint are compared, and the live image against all acknowledged writes.",
+   note="Trusted: Coq kernel; Ctl correspondence (scripted replicas); for the data half the T3 harness, ssync/sparse-tools, ext4. The Block model's UpdateLUNMap is proved sequentially only (writes between its two critical sections are not modelled), so no theorem covers the data half.",
+   technique="Coq proof of the control half + differential run on the real controller + whole-system scenarios (real replica processes, directory image comparison)", ref="§3 C07"),
+ "C19": dict(
+   text="PARTIAL proof + system exploration. Proved (Ctl model): during Start a replica is made RW only if its clone status could be read and is not 'error'; an error status or unreadable status removes it and fails the start (start_tail is shown to be the code path of addReplicaDuringStartNoLock). Not proved: CloneReplica's copy; exercised on the real binaries: source volume with history and two snapshots, a clone replica of a second controller; its status and the controller's view are sampled every 20 ms (never RW before 'completed'), then its live image is compared with the image of snapshot S on the source and its revision counter with the one recorded for S.",
+   note="Trusted: Coq kernel; Ctl correspondence; T3 harness; ssync. Timing of the 2 s polls and interruption of the copy are not modelled (thorough tier repeats the scenario).",
+   technique="Coq proof of the control half + differential run on the real controller + whole-system clone scenario", ref="§3 C19"),
+})
+
 def main():
     checks = []
     for pid in sorted(CHECKS):
